@@ -23,6 +23,7 @@
 #include "scientificinfo.h"
 
 #define PCACONVERGENCE 1e-10
+#define PCAMAXITERATIONS 10000 /* NIPALS iterations allowed per component */
 
 /**
  * PCA model data structure.
